@@ -9,12 +9,14 @@ for n in names:
     if not os.path.exists(mp): continue
     meta=json.load(open(mp)); prop=meta['property']
     ids=meta.get('check_with',[prop])
-    det,miss=[],[]
+    det,miss,sigs=[],[],[]
     for i in ids:
         p=subprocess.run([os.path.join(os.path.dirname(os.path.abspath(__file__)),'trymut.sh'),os.path.join(d,'patch.diff'),i],stdout=subprocess.PIPE,stderr=subprocess.STDOUT,text=True,env=dict(os.environ,LINES_MAX='6'))
         fired='VIOLATION property=' in p.stdout
         (det if fired else miss).append(i)
         first=[l for l in p.stdout.splitlines() if 'signature=' in l][:2]
+        if fired and first: sigs.append(i+': '+first[0].strip().split(' ')[0].replace('signature=',''))
         print(n,i,'DETECTED' if fired else 'MISSED', '|'.join(x.strip()[:160] for x in first) if fired else p.stdout.strip()[-200:])
     meta['detected_by']=det; meta['missed_by']=miss
+    if sigs: meta['first_signature']=sigs[0]
     json.dump(meta,open(mp,'w'),indent=1)
